@@ -206,6 +206,7 @@ ex.extra_models.update({
     'core::str::parse': m_parse_u64, 'str::parse': m_parse_u64,
     'GraphEngine::edge_list_lock': m_edge_list_lock,
     'GraphEngine::has_any_unique_edge_constraint': lambda c: z3.BoolVal(False),
+    'GraphEngine::index_remove': noop, 'GraphEngine::index_add': noop,
     'GraphEngine::ensure_edge_type_index': noop, 'GraphEngine::index_edge_properties': noop, 'GraphEngine::unindex_edge_properties': noop,
     'GraphEngine::unindex_node_properties': noop, 'GraphEngine::index_node_properties': noop,
     'current_timestamp_millis': lambda c: Int(z3.BitVec(c.st.fresh_name('now'), 64), False),
@@ -439,42 +440,55 @@ if created == 0 or deleted == 0 or ndeleted == 0:
     ck.inconclusive.append(f'vacuous: create_edge succeeded on {created} paths, delete_edge on {deleted}, delete_node on {ndeleted}')
 
 # ------------------------------------------------------------------ S7: user properties cannot disturb the structure
-ck.declare('S7_properties_do_not_touch_structure', 'create_edge(from, to, type, {name: Int(v)}, directed) with a symbolic property name and value, on the two-node graph with 0..1 edges',
+ck.declare('S7_properties_do_not_touch_structure', 'create_edge(from, to, type, {name: value}, directed) and update_edge(id, {name: value}) with a symbolic property name and value Int(v) or Null, on the two-node graph with 0..1 edges',
            'Ok(id) => the stored edge has the endpoints and direction that were passed and the graph is consistent - whatever the property is called; (a refusal of the property name is fine)')
 prop_runs = 0
+NULLV = lambda: Enum('PropertyValue', P.variant_index('PropertyValue', 'Null'), {}, variant='Null')
 for es in ([], [(0, 1)]):
     for dirs in itertools.product((True, False), repeat=len(es)):
-        st = ex.new_state()
-        G = Graph(st, NN, es, concrete=True)
-        G.add_lists(st, dirs)
-        ge = engine(st)
-        ge.fields[F('GraphEngine', 'edge_counter')] = Struct('AtomicU64', {'data': Cell(val=Int(U64(200), False))})
-        a1, a2, pv = z3.BitVec('arg1', 64), z3.BitVec('arg2', 64), z3.BitVec('prop_value', 64)
-        st.assume(z3.And(z3.ULT(a1, U64(1 << 59)), z3.ULT(a2, U64(1 << 59)), z3.ULT(pv, U64(1 << 59))))
-        pname = Str(z3.BitVec('prop_name', 64))
-        pval = Enum('PropertyValue', P.variant_index('PropertyValue', 'Int'), {('Int', 0): Int(pv, True)}, variant='Int')
-        args = [ref(ge), Int(a1, False), Int(a2, False), Str(z3.BitVec('new_type', 64)), Map('std::string::String', 'PropertyValue', [pname], [pval]), z3.Bool('new_directed')]
-        res = run(st, 'GraphEngine::create_edge', args)
-        ck.note_path_problem(res, f'create_edge with a property, edges={es}')
-        for r in res:
-            if r.status != 'return' or r.retval.variant != 'Ok':
+        for vkind, call in itertools.product(('Int', 'Null'), ('create_edge', 'update_edge')):
+            if call == 'update_edge' and not es:
                 continue
-            prop_runs += 1
-            nid_ = r.retval.fields[('Ok', 0)].v
-            try:
-                n1, e1, l1 = snapshot(r.st)
-                cs = z3.And(consistent(n1, e1, l1), z3.Or([z3.And(x == nid_, y == a1, z_ == a2, d2 == z3.Bool('new_directed')) for (x, y, z_, d2) in e1] + [z3.BoolVal(False)]))
-            except (AttributeError, KeyError, TypeError):
-                cs = z3.BoolVal(False)          # a system field no longer holds a value of its type
-            # which system field (if any) the name collides with, read off the path
-            names = {'_from': None, '_to': None, '_directed': None, '_id': None, '_type': None, '_edge_type': None, '_created_at': None}
+            st = ex.new_state()
+            G = Graph(st, NN, es, concrete=True)
+            G.add_lists(st, dirs)
+            ge = engine(st)
+            ge.fields[F('GraphEngine', 'edge_counter')] = Struct('AtomicU64', {'data': Cell(val=Int(U64(200), False))})
+            a1, a2, pv = z3.BitVec('arg1', 64), z3.BitVec('arg2', 64), z3.BitVec('prop_value', 64)
+            st.assume(z3.And(z3.ULT(a1, U64(1 << 59)), z3.ULT(a2, U64(1 << 59)), z3.ULT(pv, U64(1 << 59))))
+            pname = Str(z3.BitVec('prop_name', 64))
+            pval = Enum('PropertyValue', P.variant_index('PropertyValue', 'Int'), {('Int', 0): Int(pv, True)}, variant='Int') if vkind == 'Int' else NULLV()
+            props = Map('std::string::String', 'PropertyValue', [pname], [pval])
+            n0, e0, l0 = snapshot(st)
+            if call == 'create_edge':
+                args = [ref(ge), Int(a1, False), Int(a2, False), Str(z3.BitVec('new_type', 64)), props, z3.Bool('new_directed')]
+            else:
+                args = [ref(ge), Int(a1, False), props]
+            res = run(st, 'GraphEngine::' + call, args)
+            ck.note_path_problem(res, f'{call} with a {vkind} property, edges={es}')
+            for r in res:
+                if r.status != 'return' or r.retval.variant != 'Ok':
+                    continue
+                prop_runs += 1
+                try:
+                    n1, e1, l1 = snapshot(r.st)
+                    if call == 'create_edge':
+                        nid_ = r.retval.fields[('Ok', 0)].v
+                        cs = z3.And(consistent(n1, e1, l1), z3.Or([z3.And(x == nid_, y == a1, z_ == a2, d2 == z3.Bool('new_directed')) for (x, y, z_, d2) in e1] + [z3.BoolVal(False)]))
+                    else:
+                        same = z3.And([z3.Or([z3.And(x == eid, y == fr, z_ == to, d2 == dr) for (x, y, z_, d2) in e1] + [z3.BoolVal(False)]) for (eid, fr, to, dr) in e0] + [z3.BoolVal(len(e1) == len(e0))])
+                        cs = z3.And(consistent(n1, e1, l1), same)
+                except (AttributeError, KeyError, TypeError):
+                    cs = z3.BoolVal(False)          # a system field is gone or no longer holds a value of its type
+                names = ('_from', '_to', '_directed', '_id', '_type', '_edge_type', '_created_at', '_updated_at')
 
-            def wit(m, r=r, es=es, dirs=dirs, G=G):
-                pid = mval(m, pname.id)
-                hit = [t for t in names if (Str(text=t).id.as_long() == pid)]
-                return {'graph_call': 'create_edge_with_property', 'nodes': [mval(m, x) for x in G.nid], 'edges': [[a, b, mval(m, G.eid[j]), dirs[j]] for j, (a, b) in enumerate(es)],
-                        'arg1': mval(m, a1), 'arg2': mval(m, a2), 'new_directed': bool(mval(m, z3.Bool('new_directed'))), 'property': hit[0] if hit else 'plain', 'value': mval(m, pv)}
-            ck.require(ex, 'S7_properties_do_not_touch_structure', r.pc, None, cs, wit, lambda m, w: 'property-overwrites-system-field')
+                def wit(m, r=r, es=es, dirs=dirs, G=G, vkind=vkind, call=call):
+                    pid = mval(m, pname.id)
+                    hit = [t for t in names if (Str(text=t).id.as_long() == pid)]
+                    return {'graph_call': call + '_with_property', 'nodes': [mval(m, x) for x in G.nid], 'edges': [[a, b, mval(m, G.eid[j]), dirs[j]] for j, (a, b) in enumerate(es)],
+                            'arg1': mval(m, a1), 'arg2': mval(m, a2), 'new_directed': bool(mval(m, z3.Bool('new_directed'))), 'property': hit[0] if hit else 'plain',
+                            'value': mval(m, pv) if vkind == 'Int' else None}
+                ck.require(ex, 'S7_properties_do_not_touch_structure', r.pc, None, cs, wit, lambda m, w: 'property-overwrites-system-field')
 if prop_runs == 0:
     ck.inconclusive.append('S7 vacuous: create_edge with a property never succeeded')
 
